@@ -277,10 +277,34 @@ def r22_8(ctx, rep):
                     if isinstance(base, ast.Call) and (call_name(base) or "").endswith("Function") and len(base.args) >= 3:
                         outs = base.args[2]
                         mapped = isinstance(outs, ast.List) and len(outs.elts) == 1 and isinstance(outs.elts[0], ast.Attribute) and outs.elts[0].attr == "expr"
+            if mapped:
+                # ... evaluated at the loop's own values: the list handed to the mapped function contains `<loop>.values`, the loop being the
+                # one whose length the map was made for
+                recv = inlined(val.func.value, block)
+                n_arg = recv.args[2] if len(recv.args) > 2 else None
+                loop_obj = None
+                if isinstance(n_arg, ast.Call) and is_name(n_arg.func, "len") and n_arg.args and isinstance(n_arg.args[0], ast.Attribute) and n_arg.args[0].attr == "values":
+                    loop_obj = norm(n_arg.args[0])
+                fed = norm(inlined(val.args[0], block, keep={"indices"})) if val.args else ""
+                rep.ob(R, site, "the mapped delay expression is evaluated at the loop's values", loop_obj is not None and ("[%s]" % loop_obj) in fed,
+                       "the mapped function is called with `%s`; the loop index of `delay(i * x[i], tau)` must run over %s (the 1-based values of the "
+                       "loop), not over positions" % (fed[:80], loop_obj))
             rep.ob(R, site, "`%s` comes from the delay argument's own expression" % norm(d)[:60], mapped or reads_self_only,
                    "the delayed expression written back is `%s`: not the original argument's expression evaluated over the loop" % norm(val)[:70])
     if n < 2:
         raise MechanismMissing(R, "the DelayArgument written back by exitForEquation (and the definitions of its expression) were not found")
+
+
+@SPEC.rule(
+    "R22.9",
+    "`fixed` means this variable is fixed: the flag a delay duration may depend on is merged per alias group — its accumulator is bound from "
+    "the group's own canonical variable before the group's aliases are visited (R16.1 evaluated for this property); an accumulator that "
+    "survives from one group to the next marks every later canonical input as fixed, and a duration depending on a free input is accepted",
+)
+def r22_9(ctx, rep):
+    from ..engine import run_as
+    from .c16 import r16_1
+    run_as(r16_1, "R22.9", ctx, rep)
 
 
 # -- seeded variants ---------------------------------------------------------
